@@ -73,6 +73,14 @@ def shapes_of(src, exc):
     s = []
     if exc == 'RecursionError' and ast_depth(src) >= 200:
         s.append('recursion-limit')      # only very deep trees: a RecursionError on a shallow input is a different defect
+    if exc == 'ValueError' and isinstance(src, str):
+        try:
+            for n in ast.walk(ast.parse(src)):
+                if isinstance(n, ast.FormattedValue) and isinstance(n.format_spec, ast.JoinedStr) and any(
+                        isinstance(v, ast.Constant) and v.value == '' for v in n.format_spec.values):
+                    s.append('empty-constant-in-format-spec')
+        except Exception:
+            pass
     return s
 
 
@@ -166,7 +174,7 @@ def sources(ctx):
     ctx.rng.shuffle(tp)
     out += tp[:ctx.scale(150, len(tp))]
     out += [('adv%d' % i, s) for i, s in enumerate(c12.ADVERSARIAL_SOURCES)]
-    out += [('fstr%d' % i, s) for i, s in enumerate(c12.fstring_sources(ctx, ctx.scale(60, 1500)))]
+    out += [('fstr%d' % i, s) for i, s in enumerate(c12.fstring_sources(ctx, ctx.scale(300, 3000)))]
     out += [('extreme%d' % i, s) for i, s in enumerate(EXTREMES)]
     for i in range(ctx.scale(120, 4000)):
         r = gen.normalise(gen.gen_module(ctx.rng, ctx.rng.randint(1, 3)))
